@@ -86,20 +86,23 @@ func c03AllProds() []c03Prod {
 	return out
 }
 
-func (p c03Prod) key() string { return fmt.Sprintf("%s/%d/%d/%d", p.Family, p.Payload, p.Prefix, p.Tail) }
+func (p c03Prod) key() string {
+	return fmt.Sprintf("%s/%d/%d/%d", p.Family, p.Payload, p.Prefix, p.Tail)
+}
+
+// c03Masks: production key -> bit mask of the separators (index into c03Seps) for which every case
+// variant and every position of that separator was detected at calibration time.
+var c03Masks map[string]int
 
 func c03Grammar() []c03Prod {
-	var keys []string
-	if err := json.Unmarshal(c03GrammarJSON, &keys); err != nil {
-		panic("c03_grammar.json: " + err.Error())
-	}
-	allowed := map[string]bool{}
-	for _, k := range keys {
-		allowed[k] = true
+	if c03Masks == nil {
+		if err := json.Unmarshal(c03GrammarJSON, &c03Masks); err != nil {
+			panic("c03_grammar.json: " + err.Error())
+		}
 	}
 	var out []c03Prod
 	for _, p := range c03AllProds() {
-		if allowed[p.key()] {
+		if c03Masks[p.key()] != 0 {
 			out = append(out, p)
 		}
 	}
@@ -109,6 +112,12 @@ func c03Grammar() []c03Prod {
 // variants enumerates separator choices x case assignments of one production.
 // full=false yields only the space-separated lower-case form (used by other checks).
 func (p c03Prod) variants(full bool, f func(s string)) {
+	p.variantsMask(full, c03Masks[p.key()], f)
+}
+
+// variantsMask: only separators whose bit is set in mask are used (bit 0 = plain space, which also
+// carries the single-letter flips).
+func (p c03Prod) variantsMask(full bool, mask int, f func(s string)) {
 	toks := c03Payloads[p.Family][p.Payload]
 	prefix, tail := c03Prefixes[p.Prefix], c03Tails[p.Tail]
 	build := func(seps []string) string {
@@ -128,11 +137,16 @@ func (p c03Prod) variants(full bool, f func(s string)) {
 	}
 	base := build(seps)
 	if !full {
-		f(base)
+		if mask&1 != 0 {
+			f(base)
+		}
 		return
 	}
 	var texts []string
-	for _, sp := range c03Seps { // uniform
+	for si, sp := range c03Seps { // uniform
+		if mask>>uint(si)&1 == 0 {
+			continue
+		}
 		for i := range seps {
 			seps[i] = sp
 		}
@@ -141,12 +155,17 @@ func (p c03Prod) variants(full bool, f func(s string)) {
 	for i := range seps {
 		seps[i] = " "
 	}
-	for pos := 0; pos < n; pos++ { // one position at a time
-		for _, sp := range c03Seps[1:] {
-			seps[pos] = sp
-			texts = append(texts, build(seps))
+	if mask&1 != 0 {
+		for pos := 0; pos < n; pos++ { // one position at a time, the others plain spaces
+			for si, sp := range c03Seps {
+				if si == 0 || mask>>uint(si)&1 == 0 {
+					continue
+				}
+				seps[pos] = sp
+				texts = append(texts, build(seps))
+			}
+			seps[pos] = " "
 		}
-		seps[pos] = " "
 	}
 	pl := len(prefix)
 	for _, t := range texts {
@@ -164,12 +183,14 @@ func (p c03Prod) variants(full bool, f func(s string)) {
 		}
 		f(string(b))
 	}
-	// every single-letter flip of the payload, on the space-separated form
-	for i := pl; i < len(base); i++ {
-		if isLetter(base[i]) {
-			b := []byte(base)
-			b[i] ^= 0x20
-			f(string(b))
+	if mask&1 != 0 {
+		// every single-letter flip of the payload, on the space-separated form
+		for i := pl; i < len(base); i++ {
+			if isLetter(base[i]) {
+				b := []byte(base)
+				b[i] ^= 0x20
+				f(string(b))
+			}
 		}
 	}
 }
@@ -196,37 +217,39 @@ func evalC03(w *fw.W, s, aux string) {
 
 // C03Calibrate recomputes the production list on the current tree (development only).
 func C03Calibrate() {
-	var keep []string
-	dropped := map[string]int{}
-	total, members := 0, 0
+	keep := map[string]int{}
+	total, members, full := 0, 0, 0
 	for _, p := range c03AllProds() {
 		total++
-		ok := true
-		n := 0
-		p.variants(true, func(s string) {
-			n++
-			if b, _ := lib.IsSQLi(s); !b {
-				ok = false
+		mask := 0
+		// space first: without it the one-position variants do not exist
+		for si := range c03Seps {
+			bit := 1 << uint(si)
+			try := bit
+			if si > 0 {
+				try = bit | (mask & 1)
 			}
-		})
-		if ok {
-			keep = append(keep, p.key())
-			members += n
-		} else {
-			dropped[p.Family+" prefix="+c03Prefixes[p.Prefix]+" tail="+c03Tails[p.Tail]]++
+			ok := true
+			p.variantsMask(true, try, func(s string) {
+				if b, _ := lib.IsSQLi(s); !b {
+					ok = false
+				}
+			})
+			if ok {
+				mask |= bit
+			}
+		}
+		if mask != 0 {
+			keep[p.key()] = mask
+			p.variantsMask(true, mask, func(string) { members++ })
+			if mask == 1<<uint(len(c03Seps))-1 {
+				full++
+			}
 		}
 	}
 	b, _ := json.MarshalIndent(keep, "", " ")
 	fmt.Println(string(b))
-	fmt.Fprintf(fwStderr, "productions: %d of %d kept, %d members\n", len(keep), total, members)
-	var ks []string
-	for k := range dropped {
-		ks = append(ks, k)
-	}
-	sort.Strings(ks)
-	for _, k := range ks {
-		fmt.Fprintf(fwStderr, "dropped %3d  %s\n", dropped[k], k)
-	}
+	fmt.Fprintf(fwStderr, "productions: %d of %d kept (%d with every separator), %d members\n", len(keep), total, full, members)
 }
 
 func init() {
@@ -235,7 +258,7 @@ func init() {
 		ID:        "C03",
 		QuickS:    60,
 		ThoroughS: 600,
-		Rule: "complete product of the calibrated attack grammar: every committed (family, payload, prefix, tail) production x {11 separators (incl. 32- and 44-byte inline comments) uniformly, each separator position varied alone} x {lower, UPPER, alternating} plus every single-letter flip of the payload; " +
+		Rule: "complete product of the calibrated attack grammar: every committed (family, payload, prefix, tail) production x {its calibrated subset of 11 separators (incl. 32- and 44-byte inline comments) uniformly, each separator position varied alone} x {lower, UPPER, alternating} plus every single-letter flip of the payload; " +
 			"every member must be reported by IsSQLi; all members are non-trivial; distinct_outcomes = distinct fingerprints returned",
 		Assumptions: []string{"the production list c03_grammar.json was calibrated once on the repaired pinned tree and is fixed; productions the pinned tree did not detect in every variant were never part of the guarantee"},
 		Setup: func(w *fw.W) error {
